@@ -113,7 +113,7 @@ class Interconnect:
                 if slv.contains_addr(master.rdaddr.araddr):
                     slv.rd_active <<= True
 
-            await master.rddata.valid & master.rddata.ready
+            await cohdl.expr(master.rddata.valid & master.rddata.ready)
 
             for slv in self._all_slaves():
                 slv.rd_active <<= False
@@ -126,7 +126,7 @@ class Interconnect:
                 if slv.contains_addr(master.wraddr.awaddr):
                     slv.wr_active <<= True
 
-            await master.wrresp.valid & master.wrresp.ready
+            await cohdl.expr(master.wrresp.valid & master.wrresp.ready)
 
             for slv in self._all_slaves():
                 slv.wr_active <<= False
